@@ -403,10 +403,12 @@ pub struct GenOpts {
 
 /// A valid instance: unique IDs, every used ID defined, bounds that contain at least one small dyadic value.
 pub fn gen_instance(rng: &mut Rng, o: &GenOpts) -> InstSpec {
-    let pool: [u64; 10] = [0, 1, 2, 3, 5, 8, 13, 100, 4294967297, u64::MAX];
+    // IDs around the widths a careless index type would have, next to the small ones; now and then more variables
+    // than the statements' small cases
+    let pool: [u64; 19] = [0, 1, 2, 3, 5, 8, 13, 100, 4294967297, u64::MAX, 6, 12, 255, 256, 65535, 1_000_000, 1 << 31, (1 << 53) + 1, 1 << 63];
     let mut ids = pool.to_vec();
     rng.shuffle(&mut ids);
-    let nv = 1 + rng.usize(o.max_vars);
+    let nv = if rng.chance(1, 30) { (o.max_vars + 1 + rng.usize(2 * o.max_vars)).min(ids.len()) } else { 1 + rng.usize(o.max_vars) };
     ids.truncate(nv);
     let vars: Vec<VarSpec> = ids
         .iter()
